@@ -291,7 +291,7 @@ def C16(ctx):
     vyukov.reader_validation(ctx)
     queues.swing_cas_expected(ctx)
     # of the k-FIFO rules only the index-width rule is a progress condition (an index that does not fit its field makes push/pop spin forever)
-    ctx.only_skip = ("KF.aba", "KF.protocol", "OWN.", "KF.region-predicate", "KF.tail-advance", "KF.scan-complete")
+    ctx.only_skip = ("KF.aba", "KF.protocol", "OWN.", "KF.region-predicate", "KF.tail-advance", "KF.scan-complete", "KF.tail-never-onto-head")
     queues.kfifo(ctx)
     return ("Decides: no wait construct (spin on a lock bit / flag / pending write, mutex acquisition) is reachable in the resolved call graph from any "
             "operation documented lock-free or wait-free, any guard operation of any reclaimer, seqlock::load with more than one slot or left_right::read; "
